@@ -360,6 +360,67 @@ def parseOp? (toks : List String) : Option (Op DKey DVal DKey) :=
     if isMap then pure (.map i (← parseMapOp? args)) else pure (.set i (← parseSetOp? args))
   | _ => none
 
+
+/-! ### std's provided iterator methods on drains / consuming iterators
+
+`nth(k)`, `last()`, `count()` and `size_hint()` are not functions of the crate for these iterator
+types unless it overrides them (tools/inventory.json lists which it does): they are std's provided
+methods, defined in terms of `next()`.  The driver expresses them by the model's `drain` /
+`into_iter` operations:
+  * `tK` (`nth(K)`): `K+1` calls of `next`; std drops the first `K` results at once,
+  * `z` (`last()`): `next` until the end; std drops every result but the last,
+  * end `count`: the iterator is consumed, the remaining elements are destroyed (as by `drop`) and
+    their number is returned,
+  * `size_hint()` of an exact-size iterator is `(len, Some(len))`.
+Only used where `next` itself has no effects (pairs, drains, sets), so that the drops made by std
+come first in the effect trace. -/
+structure Sugar where
+  nth : Option Nat := none
+  last : Bool := false
+  count : Bool := false
+  consume : Bool := false
+
+def desugar (toks : List String) : List String × Sugar :=
+  let fix (pre : List String) (t e : String) : List String × Sugar :=
+    let (t', sg) : String × Sugar :=
+      if t == "z" then ("1000000", { last := true, consume := true })
+      else if t.startsWith "t" then
+        match (t.drop 1).toString.toNat? with
+        | some k => (toString (k + 1), { nth := some k, consume := true })
+        | none => (t, { consume := true })
+      else (t, { consume := true })
+    let (e', sg) := if e == "count" then ("drop", { sg with count := true }) else (e, sg)
+    (pre ++ [t', e'], sg)
+  match toks with
+  | [reg, "drain", t, e] => fix [reg, "drain"] t e
+  | [reg, "into_iter", t, e] => fix [reg, "into_iter"] t e
+  | [reg, "into_iter", kind, t, e] => fix [reg, "into_iter", kind] t e
+  | _ => (toks, {})
+
+def dropEventsOf : RV DKey DVal → List (Event DKey DVal DKey)
+  | .pair k v => [.dropK k, .dropV v]
+  | .key k => [.dropK k]
+  | .val v => [.dropV v]
+  | _ => []
+
+def applySugar (sg : Sugar) (isUnit : Bool) (o : Out DKey DVal DKey) : Out DKey DVal DKey :=
+  if !sg.consume then o else
+  match o.outcome, o.ret with
+  | .ok, .list (.list items :: .nat rem :: more) =>
+    let (skipped, items') :=
+      if sg.last then (items.dropLast, items.getLast?.toList)
+      else match sg.nth with
+        | some k => (items.take k, items.drop k)
+        | none => ([], items)
+    let dropEv := (skipped.flatMap dropEventsOf).filter fun e =>
+      match e with | .dropV _ => !isUnit | _ => true
+    let ret' : RV DKey DVal :=
+      if sg.last then .list [.list items', .tag "consumed"]
+      else .list ([.list items', .nat rem] ++ more ++ [.hint rem (some rem)] ++
+        (if sg.count then [.nat rem] else []))
+    { o with ret := ret', events := dropEv ++ o.events, calls := o.calls + dropEv.length }
+  | _, _ => o
+
 structure CaseCfg where
   capM : Nat → Nat
   capS : Nat → Nat
@@ -415,12 +476,15 @@ partial def loop (profile : Profile) (h : IO.FS.Stream) (out : IO.FS.Stream) (st
       out.putStrLn "bad-case"
       loop profile h out st
   | _ =>
+    let (toks, sg) := desugar toks
     match parseOp? toks with
     | none =>
       out.putStrLn "bad-op"
       loop profile h out st
     | some op =>
       let (sys', o) := step st.env render st.sys op
+      let isUnit := match op with | .map _ _ => false | _ => true
+      let o := applySugar sg isUnit o
       let isEnd := match op with | .endCase => true | _ => false
       out.putStrLn (outLine sys' o isEnd)
       loop profile h out { st with sys := sys' }
